@@ -399,7 +399,7 @@ def run(res, tier="quick", seed=0, widen=False):
                 "int/float/str/categorical(unused categories)/datetime/bool/RangeIndex keys in numpy / pandas / Index / polars / pyarrow / pyarrow-chunked (arbitrary, also empty "
                 "chunks) / ArrowDtype Series / independently dictionary-encoded chunks, plain and chunk-factorized routes, sort on/off; checks of the partition definition on "
                 "group_ikey, result_index, ngroups, groups, key_count, size(); plus factorize_1d/factorize_2d/monotonic_factorization and the jitted combination / counting-sort "
-                "kernels against the extracted model; non-trivial = >= 2 labels or a null key; distinct = canonical case")
+                "kernels against the extracted model; 3-5 keys on the key-folding route (threshold lowered at run time), the typed-Dict tracker, the 70000-label witness, key kinds incl. time-zone aware datetimes and calendar dates; non-trivial = >= 2 labels or a null key; distinct = canonical case")
     function_stream(res, rng, tier)
     model_stream(res, rng, tier)
     large_cardinality_case(res, GroupBy)
